@@ -27,6 +27,9 @@ def dispatch(prop: str):
     if prop in ("C10", "C11"):
         from .engines import scoping
         return lambda tier, seed: scoping.run_engine(prop, tier, seed)
+    if prop == "C19":
+        from .engines import laws
+        return laws.check
     raise SystemExit(f"no check registered for {prop}")
 
 
